@@ -22,6 +22,7 @@ func init() {
 	vrt.Register("C12_evaluation_order", EvaluationOrder)
 	vrt.Register("C12_nested_calls", NestedCalls)
 	vrt.Register("C12_error_result_positions", ErrorResultPositions)
+	vrt.Register("C12_fresh_options_per_call", FreshOptionsPerCall)
 }
 
 func itoa(n int) string { return strconv.Itoa(n) }
@@ -535,5 +536,44 @@ func ErrorResultPositions() {
 	vrt.Assert(h.ran == 1, "the helper is invoked exactly once")
 	vrt.Assert(err != nil, "a non-nil trailing error result fails the render: "+c)
 	vrt.Assert(out == "", "an error comes with empty output")
+	vrt.Cover("done")
+}
+
+// fdef writes defaults into the options it was given, as tag helpers do
+func (r *rec) fdef(n int, m map[string]interface{}) string {
+	r.log = append(r.log, "fdef("+itoa(n)+","+showMap(m)+")")
+	if m != nil {
+		m["class"] = n
+		m["k"] = "default"
+	}
+	return "rd"
+}
+
+// the automatically supplied options map is a fresh empty map for every call:
+// what one call wrote into it is not seen by the next call, in the same render
+// or a later one, of the same helper or another
+func FreshOptionsPerCall() {
+	r := &rec{}
+	ctx := ctxWith(r)
+	ctx.Set("fdef", r.fdef)
+	n, v := vrt.Int(), vrt.Int()
+	ctx.Set("n", n)
+	ctx.Set("v", v)
+	seqs := []struct{ in, log string }{
+		{"<%= fdef(n) %><%= fdef(v) %>", "fdef(" + itoa(n) + ",{});fdef(" + itoa(v) + ",{})"},
+		{"<%= fdef(n) %><%= fm(v) %>", "fdef(" + itoa(n) + ",{});fm(" + itoa(v) + ",{})"},
+		{"<%= fdef(n) %><%= fmh(v) %>", "fdef(" + itoa(n) + ",{});fmh(" + itoa(v) + ",{},noblock)"},
+		{"<%= fdef(n, {k: v}) %><%= fdef(v) %>", "fdef(" + itoa(n) + ",{k:int:" + itoa(v) + "});fdef(" + itoa(v) + ",{})"},
+		{"<%= for (i) in [1, 2] { %><%= fdef(n) %><% } %>", "fdef(" + itoa(n) + ",{});fdef(" + itoa(n) + ",{})"},
+	}
+	s := seqs[vrt.Choice(len(seqs))]
+	_, err := render(s.in, ctx)
+	vrt.Assert(err == nil, "the calls render")
+	vrt.Assert(strings.Join(r.log, ";") == s.log, "every call without options receives a fresh empty map")
+	// and in a later render
+	r.log = nil
+	_, err = render("<%= fm(n) %>", ctx)
+	vrt.Assert(err == nil, "the later call renders")
+	vrt.Assert(strings.Join(r.log, ";") == "fm("+itoa(n)+",{})", "a later render receives a fresh empty map too")
 	vrt.Cover("done")
 }
